@@ -52,6 +52,7 @@ func (p c10) Run(runseed uint64, tier string, acc *Acc) []*core.Violation {
 	if tier != "thorough" {
 		o.ManyPct = 0
 	}
+	o.GiantPct = 10 // one page body beyond 1 MiB: few source calls as well
 	o.HugePct = 6 // huge-value files are short histories: few source calls, cheap to enumerate
 	f, ok := genFile(r, o)
 	acc.Runs++
@@ -61,7 +62,7 @@ func (p c10) Run(runseed uint64, tier string, acc *Acc) []*core.Violation {
 	}
 	kind := []string{"rs", "rsb", "rsx", "rsf"}[r.Intn(4)]
 	limit := 2*len(f.Want) + 16
-	base, bsrc := baselineRead(f.W.Shape, f.Data, kind, limit)
+	base, bsrc := baselineRead(f.W.ReadShape(), f.Data, kind, limit)
 	if !usableBaseline(base, f.Want) {
 		acc.Unusable++
 		return nil
@@ -69,6 +70,9 @@ func (p c10) Run(runseed uint64, tier string, acc *Acc) []*core.Violation {
 	acc.MixFP(f.Digest)
 	acc.Inc("codec/" + f.W.Codec)
 	acc.Inc("shape/" + f.W.Shape)
+	if f.W.ReadAs != "" {
+		acc.Inc("reader/permuted-struct")
+	}
 	acc.Inc("kind/" + kind)
 	m := bsrc.Stats.Calls
 	var vios []*core.Violation
@@ -79,6 +83,9 @@ func (p c10) Run(runseed uint64, tier string, acc *Acc) []*core.Violation {
 	}
 	if f.W.Many {
 		acc.Inc("class/many-row-groups")
+	}
+	if f.W.Giant {
+		acc.Inc("class/giant-page")
 	}
 	if f.W.Huge {
 		acc.Inc("class/huge-values")
@@ -159,7 +166,7 @@ func (p c10) check(c *core.Case, f *fileWL, base *core.ReadResult, baseCalls int
 		src.MaxCalls = 400000 + 400*len(f.Data)
 	}
 	limit := 2*len(base.Recs) + 16
-	rr := core.ExecReaderMode(f.W.Shape, src.AsReadSeeker(kindOr(c.SourceKind)), limit, func(a string) { src.CurAPI = a }, c.ReadMode)
+	rr := core.ExecReaderMode(f.W.ReadShape(), src.AsReadSeeker(kindOr(c.SourceKind)), limit, func(a string) { src.CurAPI = a }, c.ReadMode)
 	phase := src.FiredAPI + "/" + src.Stats.FiredOp
 	if src.Stats.Fired == 0 {
 		phase = "nofault"
@@ -196,7 +203,7 @@ func (p c10) Check(c *core.Case) (*core.Violation, error) {
 	if err != nil {
 		return nil, err
 	}
-	base, bsrc := baselineRead(f.W.Shape, f.Data, kindOr(c.SourceKind), 2*len(f.Want)+16)
+	base, bsrc := baselineRead(f.W.ReadShape(), f.Data, kindOr(c.SourceKind), 2*len(f.Want)+16)
 	if !usableBaseline(base, f.Want) {
 		return nil, fmt.Errorf("fault-free read of the case's file is not usable as a reference")
 	}
